@@ -15,13 +15,21 @@ OK_, OK_MSG, BAD_MSG, BAD_NOMSG, RAISED, OTHER = 1, 2, 0, -1, -10, -11
 KEYS = ("931", "932", "933", "934", "935")
 
 
+_SHARED = []
+
+
 def _evaluator():
+    """one long-lived evaluator instance for the whole run (evaluators are singletons in real use, so results must not
+    depend on what the instance evaluated before)"""
     from ahbicht.content_evaluation.fc_evaluators import FcEvaluator
 
-    class _E(FcEvaluator):
-        pass
+    if not _SHARED:
 
-    return _E()
+        class _E(FcEvaluator):
+            pass
+
+        _SHARED.append(_E())
+    return _SHARED[0]
 
 
 def encode_functions(run: Run):
@@ -261,10 +269,10 @@ def main(run: Run) -> int:
 
 def witness_grid(run: Run):
     """TM validation on boundary instants (DESIGN §4.4): every EU switch instant 1996-2037 and the German-local 00:00 / 06:00
-    instants of the switch day and its neighbours, each +-1 s, written with 8 UTC offsets (incl. negative offsets with minutes
-    and Z), through the REAL evaluate_931..935 (real string parsing included) against the documented verdict computed by
+    instants of the switch day and its neighbours, each +-1 s, written with 12 UTC offsets (incl. negative offsets with minutes,
+    sub-hour and sub-minute offsets, and Z), through the REAL evaluate_931..935 (real string parsing included) against the documented verdict computed by
     independent integer arithmetic.  A disagreement is a violation replayed on the real code by construction."""
-    offsets = [0, 3600, 7200, -3600, -12600, 20700, -28800, 50400]
+    offsets = [0, 3600, 7200, -3600, -12600, 20700, -28800, 50400, 1800, 30, -900, 3599]
     instants = set()
     for inst, _ in tm.eu_switches(1996, 2037):
         day0 = (inst // 86400) * 86400
@@ -330,14 +338,17 @@ def witnesses_only(run: Run):
 def replay(p: dict) -> dict:
     kind = p.get("kind")
     if kind == "C20-iso":
-        key, iso, tv, ov = p["fc"], p["iso"], p["t"], p["off"]
-        real, info = real_verdict(key, iso)
-        if real == RAISED:
-            return {"outcome": "fail", "what": f"evaluate_{key}('{iso}') raises {info}"}
-        if T1996 <= tv < T2038 and real != spec_native(key, tv, ov):
-            return {"outcome": "fail", "what": f"evaluate_{key}('{iso}') -> code {real}, documented {spec_native(key, tv, ov)}"}
-        if real not in (OK_, BAD_MSG):
-            return {"outcome": "fail", "what": f"evaluate_{key}('{iso}') -> code {real}"}
+        iso, tv, ov = p["iso"], p["t"], p["off"]
+        # all five constraints on one evaluator instance, in key order (as the boundary grid does): a verdict must not depend
+        # on what the instance evaluated before
+        for key in KEYS:
+            real, info = real_verdict(key, iso)
+            if real == RAISED:
+                return {"outcome": "fail", "what": f"evaluate_{key}('{iso}') raises {info}"}
+            if T1996 <= tv < T2038 and real != spec_native(key, tv, ov):
+                return {"outcome": "fail", "what": f"evaluate_{key}('{iso}') -> code {real}, documented {spec_native(key, tv, ov)}"}
+            if real not in (OK_, BAD_MSG):
+                return {"outcome": "fail", "what": f"evaluate_{key}('{iso}') -> code {real}"}
         return {"outcome": "pass"}
     if kind == "C20-str":
         real, info = real_verdict(p["fc"], p["s"])
